@@ -28,6 +28,50 @@ fn report(out: &mut Vec<Value>, n: usize, form: &str, arena: &Arena<i64>, ret: N
     }));
 }
 
+// a payload with drop glue: every label counts its destructor runs
+use std::sync::atomic::{AtomicUsize, Ordering};
+static DROPS: [AtomicUsize; 256] = [const { AtomicUsize::new(0) }; 256];
+#[derive(Debug)]
+pub struct P(pub i64);
+impl Drop for P {
+    fn drop(&mut self) {
+        DROPS[(self.0 + 128) as usize].fetch_add(1, Ordering::SeqCst);
+    }
+}
+fn drops_total() -> usize {
+    DROPS.iter().map(|d| d.load(Ordering::SeqCst)).sum()
+}
+
+fn report_p(out: &mut Vec<Value>, n: usize, form: &str, arena: Arena<P>, ret: NodeId, root: Option<NodeId>, drops_before: usize) {
+    let mut kids = serde_json::Map::new();
+    let mut labels = Vec::new();
+    for node in arena.iter() {
+        if node.is_removed() {
+            continue;
+        }
+        let id = arena.get_node_id(node).unwrap();
+        let ks: Vec<i64> = id.children(&arena).take(10_000).map(|c| arena[c].get().0).collect();
+        kids.insert(node.get().0.to_string(), json!(ks));
+        labels.push(node.get().0);
+    }
+    let log: Vec<i64> = LOG.with(|l| l.borrow().clone());
+    let ret_payload = arena[ret].get().0;
+    let ret_is_root = root.map(|r| r == ret);
+    let ret_parent_none = arena[ret].parent().is_none();
+    let count = arena.count();
+    // no payload may have been destroyed while the arena is alive ...
+    let drops_while_alive = drops_total() - drops_before;
+    let per_label_before: Vec<usize> = labels.iter().map(|l| DROPS[(*l + 128) as usize].load(Ordering::SeqCst)).collect();
+    drop(arena);
+    // ... and dropping the arena destroys each exactly once
+    let once = labels.iter().zip(per_label_before.iter()).all(|(l, b)| DROPS[(*l + 128) as usize].load(Ordering::SeqCst) == b + 1);
+    out.push(json!({
+        "n": n, "form": form, "count": count, "kids": kids, "log": log,
+        "ret_payload": ret_payload, "ret_is_given_root": ret_is_root, "ret_parent_none": ret_parent_none,
+        "drops_while_alive": drops_while_alive, "each_dropped_once_with_arena": once,
+    }));
+}
+
 include!("cases.rs");
 
 fn main() {
